@@ -452,6 +452,12 @@ def coalesced_run(ctx, env, symbols, ref_transcript, rng, case):
     """Non-adaptive sequence fed as one stream under a random partition; the transcript (reply kinds,
     close, authentication) must equal the line-by-line one."""
     n_used = len(ref_transcript)
+    if ref_transcript and ref_transcript[-1][2] and not ref_transcript[-1][3]:
+        # the reference run ended with the bus closing the connection: whatever is queued behind the fatal line in
+        # the same read must be ignored, so feed the *whole* sequence (plus a would-be successful handshake)
+        n_used = len(symbols)
+        symbols = list(symbols) + ['AUTH_ANON', 'BEGIN']
+        n_used = len(symbols)
     data = b'\0'
     for name in symbols[:n_used]:
         line, sym = concretise(name, {}, env)
